@@ -14,9 +14,9 @@ import (
 
 // Env records and replays the choices of one execution.
 type Env struct {
-	Prefix []int // choices to replay
-	Taken  []int // choices actually taken, one per point
-	Alts   []int // number of enabled alternatives (incl. default) at each point
+	Prefix   []int // choices to replay
+	Taken    []int // choices actually taken, one per point
+	Alts     []int // number of enabled alternatives (incl. default) at each point
 	Diverged bool
 }
 
